@@ -457,18 +457,52 @@ func (fc *FnCtx) applyContract(s *State, x *ssa.Call, ct *Contract, callee *ssa.
 		}
 	}
 	for _, c := range ct.Ensures {
+		if c.Assumed {
+			fc.usedAssumed[fmt.Sprintf("%s.ensures[%s] (clause assumed)", ckey, c.Label)] = true
+		}
 		s.assume(fc.evalSpecBool(post, c.E))
 	}
+	result := tupleOrSingle(rets, res)
+	states := []*State{s}
 	if fc.ct != nil {
 		for _, h := range fc.ct.Hints {
-			if h.Where == "after:"+site {
-				henv := &Env{fc: fc, names: map[string]Val{}, cellsAt: s, heap: s.heap, oldNames: fc.entry, oldHeap: fc.oldHeap, pos: x.Pos(),
-					nalloc0: fc.nalloc0, nobj0: fc.nobj0}
-				fc.applyHint(s, henv, h, "after "+site)
+			if h.Where != "after:"+site {
+				continue
 			}
+			var next []*State
+			for _, st := range states {
+				henv := &Env{fc: fc, names: map[string]Val{}, cellsAt: st, heap: st.heap, oldNames: fc.entry, oldHeap: fc.oldHeap, pos: x.Pos(),
+					nalloc0: fc.nalloc0, nobj0: fc.nobj0}
+				if h.E.Kind == "call" && h.E.Name == "cases" && len(h.E.Args) == 3 {
+					// cases(result, lo, hi): case split on the call's (integer) result
+					lo, hi := h.E.Args[1].Val, h.E.Args[2].Val
+					if h.E.Args[0].Kind != "ident" || h.E.Args[0].Name != "result" || lo == nil || hi == nil || result.K != VInt {
+						panic(unsupported("cases(result, lo, hi) needs literal bounds and an integer result"))
+					}
+					fc.oblige(st, fmt.Sprintf("%s.cases@%s", fc.key, site), "split", nil, h.Text, mkAnd(mkLe(mkInt(lo), result.T), mkLe(result.T, mkInt(hi))), "after "+site)
+					for kv := lo.Int64(); kv <= hi.Int64(); kv++ {
+						c := st.clone()
+						c.assume(mkEq(result.T, mkI(kv)))
+						c.trace = append(c.trace, fmt.Sprintf("case %s=%d", site, kv))
+						c.caseLit = mkI(kv)
+						next = append(next, c)
+					}
+					continue
+				}
+				fc.applyHint(st, henv, h, "after "+site)
+				next = append(next, st)
+			}
+			states = next
 		}
 	}
-	k(s, tupleOrSingle(rets, res))
+	for _, st := range states {
+		r := result
+		if st.caseLit != nil {
+			r = intVal(st.caseLit, result.Typ)
+			st.caseLit = nil
+		}
+		k(st, r)
+	}
 }
 
 func externParamNames(header string, n int) []string {
